@@ -443,7 +443,9 @@ package secp256k1
 //@
 //@ func (*Point).ScalarMult
 //@   props C04 C10 C17 C18
-//@   assert halves@k2Bytes#2: lift(val(k1)) < T128 && lift(val(k2)) < T128 && os2ipv(k1Bytes) == lift(val(k1)) && os2ipv(k2Bytes) == lift(val(k2)) && padd(smul(val(k1), abs(pee)), smul(val(k2), abs(peePrime))) == smul(old(val(s)), old(abs(p)))
+//@   timeout 40
+//@   assert bounds@k2Bytes#2: lift(val(k1)) < T128 && lift(val(k2)) < T128
+//@   assert halves@k2Bytes#2: os2ipv(k1Bytes) == lift(val(k1)) && os2ipv(k2Bytes) == lift(val(k2)) && padd(smul(val(k1), abs(pee)), smul(val(k2), abs(peePrime))) == smul(old(val(s)), old(abs(p)))
 //@   cut ladder@return: old(p.isValid) && e4(v.x.m) < P && e4(v.y.m) < P && e4(v.z.m) < P && v.isValid && onc(v) && abs(v) == padd(smul(fn(os2ipv(k1Bytes)), abs(pTbl[0])), smul(fn(os2ipv(k2Bytes)), abs(pPrimeTbl[0]))) && os2ipv(k1Bytes) == lift(val(k1)) && os2ipv(k2Bytes) == lift(val(k2)) && abs(pTbl[0]) == abs(pee) && abs(pPrimeTbl[0]) == abs(peePrime) && padd(smul(val(k1), abs(pee)), smul(val(k2), abs(peePrime))) == smul(old(val(s)), old(abs(p)))
 //@   panics !p.isValid
 //@   ensures v.isValid && abs(v) == smul(old(val(s)), old(abs(p))) && result == v
@@ -451,7 +453,9 @@ package secp256k1
 //@
 //@ func (*Point).scalarMultVartimeGLV
 //@   props C04 C07
-//@   assert halves@k2Bytes#2: lift(val(k1)) < T128 && lift(val(k2)) < T128 && os2ipv(k1Bytes) == lift(val(k1)) && os2ipv(k2Bytes) == lift(val(k2)) && padd(smul(val(k1), abs(pee)), smul(val(k2), abs(peePrime))) == smul(old(val(s)), old(abs(p)))
+//@   timeout 40
+//@   assert bounds@k2Bytes#2: lift(val(k1)) < T128 && lift(val(k2)) < T128
+//@   assert halves@k2Bytes#2: os2ipv(k1Bytes) == lift(val(k1)) && os2ipv(k2Bytes) == lift(val(k2)) && padd(smul(val(k1), abs(pee)), smul(val(k2), abs(peePrime))) == smul(old(val(s)), old(abs(p)))
 //@   cut ladder@return: old(p.isValid) && e4(v.x.m) < P && e4(v.y.m) < P && e4(v.z.m) < P && v.isValid && onc(v) && abs(v) == padd(smul(fn(os2ipv(k1Bytes)), abs(pTbl[0])), smul(fn(os2ipv(k2Bytes)), abs(pPrimeTbl[0]))) && os2ipv(k1Bytes) == lift(val(k1)) && os2ipv(k2Bytes) == lift(val(k2)) && abs(pTbl[0]) == abs(pee) && abs(pPrimeTbl[0]) == abs(peePrime) && padd(smul(val(k1), abs(pee)), smul(val(k2), abs(peePrime))) == smul(old(val(s)), old(abs(p)))
 //@   panics !p.isValid
 //@   ensures v.isValid && abs(v) == smul(old(val(s)), old(abs(p))) && result == v
